@@ -930,6 +930,11 @@ func (tkn *Tokenizer) scanString(delim uint16, typ int) (int, []byte) {
 			}
 			if decodedChar := sqltypes.SQLDecodeMap[byte(tkn.lastChar)]; decodedChar == sqltypes.DontEscape {
 				ch = tkn.lastChar
+				// MySQL: "\%" and "\_" evaluate to the strings \% and \_, the backslash stays
+				// (it is printed back as "\\%", which MySQL reads as the same two characters)
+				if (ch == '%' || ch == '_') && tkn.IsMySQL() {
+					buffer.WriteByte('\\')
+				}
 			} else {
 				ch = uint16(decodedChar)
 			}
